@@ -262,6 +262,22 @@ static void run_libc(uint64_t idx, pv_rng* rng) {
         if (pv_wrap_count[PV_WRAP_FREE] - f0 != 1 || pv_wrap_count[PV_WRAP_MALLOC] != m0) pv_violation("C15/libc-path/free", "polyseed_free: %llu libc free calls", (unsigned long long)(pv_wrap_count[PV_WRAP_FREE] - f0));
         else PV_COUNT("libc.seed_freed_once", 1);
     }
+    /* the libc allocator runs out of memory: the same status rule as for an injected allocator (no crash, MEMORY, no seed, balanced) */
+    if (idx % 3 == 0) {
+        uint64_t r0 = pv_wrap_malloc_refused; m0 = pv_wrap_count[PV_WRAP_MALLOC] + pv_wrap_count[PV_WRAP_CALLOC]; f0 = pv_wrap_count[PV_WRAP_FREE];
+        pv_wrap_malloc_fail_countdown = 1 + (long)pv_randn(rng, 2);
+        pv_cur.note = "libc malloc/calloc refuses a request made inside this call";
+        polyseed_data* s2 = NULL; int st2 = call(&in, &s2);
+        pv_wrap_malloc_fail_countdown = 0; pv_cur.note = NULL;
+        PV_COUNT("evaluations", 1);
+        bool refused = pv_wrap_malloc_refused != r0;
+        dm = pv_wrap_count[PV_WRAP_MALLOC] + pv_wrap_count[PV_WRAP_CALLOC] - m0 - (refused ? 1 : 0); df = pv_wrap_count[PV_WRAP_FREE] - f0;
+        if (refused && st2 != POLYSEED_ERR_MEMORY) pv_violation("C15/libc-path/alloc-failure-not-reported", "%s: libc refused an allocation but the call returned %s", ENAME[e], pv_status_name(st2));
+        else if (!refused && st2 != st) pv_violation("C15/libc-path/status", "%s: %s, then %s for the same input", ENAME[e], pv_status_name(st), pv_status_name(st2));
+        else if (dm != df + (st2 == POLYSEED_OK ? 1 : 0)) pv_violation("C15/libc-path/leak", "%s -> %s with a refused libc allocation: %llu successful allocations, %llu frees", ENAME[e], pv_status_name(st2), (unsigned long long)dm, (unsigned long long)df);
+        else if (refused) PV_COUNT("libc.refused_allocation_reported_as_MEMORY", 1);
+        if (st2 == POLYSEED_OK) pv_api_free(s2);
+    }
     PV_DISTINCT("nontrivial", pv_mix(0x11bc, idx));
     input_free(&in);
 }
